@@ -9,8 +9,9 @@ Open Scope Z_scope.
    interleaving of any number of ids, flow-control frames anywhere, frames of
    unknown ids anywhere): if the non-flow-control frames of id a are the
    ISO 15765-2 segmentation (any frame size >= 8 per transfer, any padding, any
-   telegram length 1..4095) of the transfers xs, then the reassembler reports
-   for id a exactly the telegrams of xs, in order, each once. *)
+   telegram length from 1 to 2^32 - 1: above 4095 bytes the first frame announces the
+   length as 32 bit number, ISO 15765-2:2016) of the transfers xs, then the reassembler
+   reports for id a exactly the telegrams of xs, in order, each once. *)
 Theorem C12_interleaved :
   forall (rx_ids : list Z) (fs : list frame) (a : Z) (xs : list transfer),
     In a rx_ids -> Forall tr_ok xs ->
@@ -31,7 +32,7 @@ Print Assumptions C12_frame_locality.
 (* one transfer, from any slot state: exactly its telegram *)
 Theorem C12_single_transfer :
   forall (s : slot) (fsz : Z) (t pad : list Z),
-    8 <= fsz -> 1 <= blen t <= 4095 ->
+    8 <= fsz -> 1 <= blen t < 4294967296 ->
     exists s', slot_run s (segment fsz t pad) = (s', [t]).
 Proof. exact seg_run. Qed.
 Print Assumptions C12_single_transfer.
@@ -53,6 +54,26 @@ Theorem C12_active_fc :
                          [isotp_frame_type_flow_control * 16 + isotp_flow_control_continue; 255; 0])]).
 Proof. exact active_ff. Qed.
 Print Assumptions C12_active_fc.
+
+(* what the specification side produces: short telegrams in one frame, up to 4095 bytes a first frame with a 12 bit
+   length, above that a first frame with a zero 12 bit length and the length as 32 bit number *)
+Theorem C12_segmentation_defs : forall fsz t pad,
+  segment fsz t pad =
+    let n := blen t in
+    if n <=? 7 then [ n :: t ++ pad ]
+    else if n <=? fsz - 2 then [ 0 :: n :: t ++ pad ]
+    else if n <=? 4095 then
+         ((16 + n / 256) :: (n mod 256) :: take (fsz - 2) t) :: cfs (List.length t) fsz 1 (drop (fsz - 2) t) pad
+    else (16 :: 0 :: be4 n ++ take (fsz - 6) t) :: cfs (List.length t) fsz 1 (drop (fsz - 6) t) pad.
+Proof. reflexivity. Qed.
+Print Assumptions C12_segmentation_defs.
+
+(* a first frame with the 32 bit length opens a transfer of that length whose first bytes are those behind the length *)
+Theorem C12_long_first_frame : forall s n pl,
+  0 <= n < 4294967296 ->
+  exists c, slot_step s (16 :: 0 :: be4 n ++ pl) = (mkSlot n (Some pl) 0, [], c).
+Proof. exact ff_esc_step. Qed.
+Print Assumptions C12_long_first_frame.
 
 Theorem C12_nonvacuous :
   segment 8 [1;2;3;4;5;6;7;8;9;10] [170] = [[16;10;1;2;3;4;5;6]; [33;7;8;9;10;170]]
